@@ -171,7 +171,7 @@ DEFAULT_FEATURES = dict(
     derived=True, cte=True, order=True, limit=True, offset_no_limit=False, order_expr=True,
     cast=True, concat=True, group_expr=True, where_false=True, case_no_else=False,
     corr_in_sub=False, neg=True, null_lit=True, sum_=True, derived_limit=False, agg_in_list=True, in_sub_expr=True,
-    sorted_join=True, join_mixed_key=True,
+    sorted_join=True, join_mixed_key=True, order_hidden_pk=True,
 )
 
 
@@ -411,8 +411,10 @@ class QueryGen:
             sql = f"({inner}) AS {a0}"
         else:
             sql, scope = f"{t0.name} AS {a0}", self.table_scope(t0, a0)
+            self.single_pk = f"{a0}.{t0.pk().name}" if t0.pk() else None
         njoin = 0
         if self.on("join", 0.45):
+            self.single_pk = None
             njoin = 2 if self.on("three_way", 0.25) else 1
         for _ in range(njoin):
             if self.on("self_join", 0.2):
@@ -674,7 +676,9 @@ class QueryGen:
         r = self.rng
         self.tags = set()
         self.origin, self.inner_aggs = {}, set()
+        self.single_pk = None
         core = self.select_core()
+        hidden_pk = self.single_pk if not ({"agg", "distinct", "derived", "sorted_join"} & self.tags) else None
         sql = core["sql"]
         n = core["n"]
         if self.on("cte", 0.08):
@@ -683,6 +687,18 @@ class QueryGen:
             cols = ", ".join(f"{a}.c{i} AS c{i}" for i in range(n))
             sql = f"WITH {a} AS ({sql}) SELECT {cols} FROM {a}"
         order, limited = [], False
+        if hidden_pk and "cte" not in self.tags and self.on("order_hidden_pk", 0.3):
+            # ordered by the (unique) primary key, which is not (necessarily) in the select list: storage
+            # order, sort elimination and column pruning meet here; the whole sequence is determined
+            self.tag("order_hidden_pk")
+            sql += f" ORDER BY {hidden_pk}{' DESC' if r.random() < 0.4 else ''}"
+            if r.random() < 0.3:
+                self.tag("limit")
+                limited = True
+                sql += f" LIMIT {r.choice([1, 2, 3, 5])}"
+                if r.random() < 0.4:
+                    sql += f" OFFSET {r.choice([1, 2])}"
+            return Q(sql, self.tags, n, [(-1, False)], limited)
         if self.on("order", 0.35):
             self.tag("order")
             want_limit = self.on("limit", 0.5)
